@@ -286,9 +286,14 @@ def run_impl(case, tag):
     spec = YAMLSpecification.load_specification_from_stream(io.StringIO(text))
     environment = spec.get_study_environment()
     steps = spec.get_study_steps()
-    environment.remove("OUTPUT_PATH")
-    environment.add(Variable("OUTPUT_PATH", root))
-    environment.add(Variable("SPECROOT", os.path.abspath(specroot)))
+    api = bool(case.get("api"))
+    if not api:
+        # maestro.py's run_study; with "api" the Study is built from the
+        # specification's own environment only (library use: no variable is
+        # guaranteed to exist, the environment may hold dependencies only)
+        environment.remove("OUTPUT_PATH")
+        environment.add(Variable("OUTPUT_PATH", root))
+        environment.add(Variable("SPECROOT", os.path.abspath(specroot)))
     if needs_pgen(case):
         parameters = ParameterGenerator()
         for p in case["params"]:
@@ -305,9 +310,10 @@ def run_impl(case, tag):
         env_ops.append(["var", k, str(v), isinstance(v, str)])
     for p in ((doc_env.get("dependencies") or {}).get("paths") or []):
         env_ops.append(["dep", p["name"], os.path.abspath(p["path"])])
-    env_ops.append(["rm", "OUTPUT_PATH"])
-    env_ops.append(["var", "OUTPUT_PATH", root, True])
-    env_ops.append(["var", "SPECROOT", os.path.abspath(specroot), True])
+    if not api:
+        env_ops.append(["rm", "OUTPUT_PATH"])
+        env_ops.append(["var", "OUTPUT_PATH", root, True])
+        env_ops.append(["var", "SPECROOT", os.path.abspath(specroot), True])
     m_params = []
     for p in case.get("params", []):
         lab = p["label"]
@@ -392,11 +398,24 @@ def _value(rng, kind=None):
     return rng.choice(["alpha", "beta", "gamma", "1", "2", "x y", "m.n", "z-1", "UP", "lo_w"])
 
 
-def gen_case(rng, exotic=None):
-    """A structured, mostly valid specification.  `exotic` names a deviation."""
+ENV_SHAPES = [(v, l, d) for v in (False, True) for l in (False, True) for d in (False, True)]
+
+
+def gen_case(rng, exotic=None, shape=None, api=False):
+    """A structured, mostly valid specification.  `exotic` names a deviation.
+    `shape` = (variables?, labels?, dependencies?) fixes which kinds of
+    environment objects exist (every subset, the empty one included) and puts a
+    token of every defined kind into cmd AND restart; `api` builds the Study
+    from the specification's environment alone (no OUTPUT_PATH / SPECROOT)."""
     case = {"stream": "valid" if not exotic else "exotic:" + exotic}
+    if api:
+        case["api"] = True
+    if shape is not None:
+        case["shape"] = "".join(c for c, on in zip("VLD", shape) if on) or "empty"
     # ---- environment --------------------------------------------------------
     nvar = rng.choice([0, 1, 2, 2, 3, 4])
+    if shape is not None:
+        nvar = rng.choice([1, 2, 3]) if shape[0] else 0
     variables = OrderedDict()
     vnames = rng.sample(VAR_NAMES, nvar)
     plain_vars = []
@@ -409,7 +428,7 @@ def gen_case(rng, exotic=None):
                             "a/b/c", 3, 16, 2.5, "x"])
             variables[n] = v
             plain_vars.append(n)
-    if rng.random() < 0.3:
+    if rng.random() < 0.3 and (shape is None or shape[0]):
         variables["OUTPUT_PATH"] = rng.choice(["./out", "/ignored/by/harness"])
         # position matters for the label classification: shuffle it in
         items = list(variables.items())
@@ -419,9 +438,13 @@ def gen_case(rng, exotic=None):
         variables = OrderedDict(items)
     case["variables"] = variables
     paths = rng.sample(DEP_NAMES, rng.choice([0, 0, 1, 2]))
+    if shape is not None:
+        paths = rng.sample(DEP_NAMES, rng.choice([1, 2])) if shape[2] else []
     case["paths"] = paths
     # parameters
     npar = rng.choice([0, 1, 1, 2, 2, 3, 4])
+    if shape is not None and shape[1] and not shape[0] and npar == 0:
+        npar = 1          # labels need something to refer to
     nrow = rng.choice([1, 2, 2, 3, 3, 4, 5])
     pkeys = rng.sample(PARAM_KEYS, npar)
     params = []
@@ -440,11 +463,17 @@ def gen_case(rng, exotic=None):
         params.append(p)
     case["params"] = params
     labels = OrderedDict()
+    nlab = rng.choice([0, 1, 1, 2])
+    if shape is not None:
+        nlab = rng.choice([1, 2]) if shape[1] else 0
     if plain_vars or pkeys or paths:
-        for n in rng.sample(LABEL_NAMES, rng.choice([0, 1, 1, 2])):
+        for n in rng.sample(LABEL_NAMES, nlab):
             refs = []
             for _ in range(rng.choice([1, 1, 2])):
                 c = rng.random()
+                if shape is not None and not plain_vars and pkeys:
+                    c = 0.6       # no variable: a "label" is registered as a substitution and
+                    #               runs after the dependencies, so it refers to parameters
                 if c < 0.45 and plain_vars:
                     refs.append("$(%s)" % rng.choice(plain_vars))
                 elif c < 0.8 and pkeys:
@@ -455,7 +484,7 @@ def gen_case(rng, exotic=None):
                 continue
             labels[n] = rng.choice(["", "run_", "/tmp/"]) + rng.choice(["/", "_", "-", ".", ""]).join(refs) + \
                 rng.choice(["", "/x", ".d"])
-    if not variables and labels:
+    if not variables and labels and shape is None:
         # without a registered substitution add() never classifies a label: keep
         # the documented reading (labels reference variables) by adding one
         variables["BASE"] = "data"
@@ -556,6 +585,15 @@ def gen_case(rng, exotic=None):
         desc = rng.choice(["step %s" % name, "does things", "uses $(%s)" % (rng.choice(pkeys) if pkeys else "NOTHING"),
                            "with $(%s)" % (rng.choice(vnames) if vnames else "BASE"), "décrit"])
         steps.append({"name": name, "description": desc, "run": run})
+    if shape is not None:
+        # a token of every defined kind in cmd and in restart
+        kinds = ["$(%s)" % n for n in list(variables)[:1] + list(labels)[:1] + paths[:1] if n != "OUTPUT_PATH"]
+        kinds += ["$(%s)" % n for n in list(variables)[1:2] + paths[1:2] if n != "OUTPUT_PATH"]
+        if pkeys:
+            kinds.append("$(%s.label)" % pkeys[0])
+        for st in [steps[0]] + ([rng.choice(steps)] if len(steps) > 1 else []):
+            st["run"]["cmd"] += " " + rng.choice([" ", "/", ":"]).join(kinds + ["$(WORKSPACE)"]) if kinds else " $(WORKSPACE)"
+            st["run"]["restart"] = (st["run"].get("restart", "") + " redo " + " ".join(reversed(kinds)) + " $(UNDEF)").strip()
     case["steps"] = steps
     if rng.random() < 0.1:
         case["shell"] = rng.choice(["/bin/sh", "/bin/tcsh", "/usr/bin/env bash"])
@@ -852,7 +890,16 @@ def load_corpus():
 
 
 def generate(rng, n_valid, n_exotic):
-    cases = [gen_case(rng) for _ in range(n_valid)]
+    # a third of the valid stream walks through every shape of environment
+    # (only variables / labels / dependencies, every mix, empty), half of those
+    # built the library way (no OUTPUT_PATH / SPECROOT variable)
+    cases = []
+    for k in range(n_valid):
+        if k % 3 == 0:
+            j = k // 3
+            cases.append(gen_case(rng, shape=ENV_SHAPES[j % 8], api=(j // 8) % 2 == 0))
+        else:
+            cases.append(gen_case(rng))
     for k in range(n_exotic):
         cases.append(gen_case(rng, exotic=EXOTICS[k % len(EXOTICS)]))
     return cases
@@ -926,6 +973,8 @@ def classify(ck, rows, errs, dist):
         dist["instances:%s" % ("raised" if obs == "Raised" else min(ninst, 12))] += 1
         dist["hyg:%s" % r.get("hyg")] += 1
         dist["hyg:%s:%s" % (stream.split(":")[0], r.get("hyg"))] += 1
+        if c.get("shape"):
+            dist["env_shape:%s:%s" % (c["shape"], "api" if c.get("api") else "cli")] += 1
         blob = json.dumps([st["run"] for st in c["steps"]], default=str)
         for kind, pat in (("param_value", r"\$\((?:%s)\)" % "|".join(PARAM_KEYS)), ("param_label", r"\.label\)"),
                           ("param_name", r"\.name\)"), ("step_workspace", r"\.workspace\)"),
